@@ -37,7 +37,6 @@ GAPS = [
  "* **C07-k** (decoded list of two or more countersignatures: every pointer is the last entry): `wireflow` verifies the message and re-encodes; it does not verify each nested countersignature of a *decoded list* with its own key. Add per-entry verification to the wire flow (the re-encoding check of C09 should then see the duplicated entry as well).",
  "* **C08-k** (bare header encoders return shared package-level slices for empty buckets): the harness overwrites *receive* buffers (round 5 device i) but not the byte slices the encoders return; scribble on every returned encoding in `hdrgrid` before the next encoding is compared.",
  "* **C08-l** (`Key.MarshalCBOR` pads a short coordinate in place when the slice has spare capacity): fixture keys are built with exact-capacity slices; build coordinates as sub-slices of one `04 || X || Y` buffer and with spare capacity in `keyrt`.",
- "* **C10-k** (a parent `Signature` whose signature is empty but not nil is countersigned): `CsModel`'s *emptied* edit stores nil; add the `[]byte{}` variant (the interpreter's `setsig` already has `nonnil`).",
  "* **C10-l** (hand-written bstr head: a 256-byte parent signature gets `58 00`): `Gen_C10` uses symbolic 10-byte signatures; add parents signed by PS256 / 2048 (256 bytes) and padded symbolic signatures of 255 / 256 / 65535 / 65536 bytes - the structure comparison of `Trace_C10` then sees the head.",
  "* **C12-k** (decoder limits 8 levels / 32 pairs / 1024 elements, no matching encoder limits): the wide / deep structures of round 5 (iv) go through C01 / C07, not through the envelope producer; add a base header of 33+ entries and a deep value to `Gen_C12`.",
  "* **C14-k** (tags forbidden anywhere inside a COSE_Key): key round trips carry no tagged extra-parameter values; add `cbor.Tag`, `time.Time` and big integers to the optional parameters of `Gen_C14`.",
@@ -153,7 +152,7 @@ def main():
             "earlier ones had shown the checks to cover. Every miss of rounds 1-5 led to a strengthening of the generator, harness or judge of the owning property (git history of `/verif`; summarised in section 0 "
             "and in the as-built notes of section 6); after each of those rounds every change of all rounds so far was reported by its owning property's quick check (one, C03-j, only in some runs: its effect "
             "needs a particular interleaving inside one verifier; C18 reports it in every run). **Round 6 is only partly worked off** (the session ended): the hash-envelope life-cycle model (`EnvModel`, "
-            "section 0) and the COSE_Key life-cycle stage added to C18 turned C03-l, C09-k and C18-k into reported changes; the rows marked NOT caught below are open gaps, listed with what each needs in section 13.5. "
+            "section 0) and the COSE_Key life-cycle stage added to C18 and an emptied-but-not-nil parent signature in the refuse flow of `Gen_C10` turned C03-l, C09-k, C18-k and C10-k into reported changes; the rows marked NOT caught below are open gaps, listed with what each needs in section 13.5. "
             "The table lists the reasons printed (first two) and sibling checks confirmed to report the change as well.", "",
             "| id | change | outcome of the owning property's quick check |", "|---|---|---|"]
     sec += matrix_rows()
